@@ -8,6 +8,7 @@ by operation against a small reference model (RegistryModel).
 import collections
 import itertools
 import re
+import weakref
 import sys
 import warnings
 
@@ -294,11 +295,12 @@ def execute(spec):
             c = cls[op[1]]
             tag = op[2]
             fn = (lambda v, ctx, tag=tag: tag)
-            if len(op) > 3 and op[3] == 'again' and (k, c) in last_fn:
+            if len(op) > 3 and op[3] == 'again' and (k, c) in last_fn and last_fn[(k, c)][0]() is not None:
                 # the very same function object registered once more (module imported twice, ...)
-                fn, tag = last_fn[(k, c)]
+                fn, tag = last_fn[(k, c)][0](), last_fn[(k, c)][1]
                 bump('same_function_registered_again')
-            last_fn[(k, c)] = (fn, tag)
+            # remembered weakly: the harness must not be what keeps a registered printer alive
+            last_fn[(k, c)] = (weakref.ref(fn), tag)
             if k == 'rn':
                 register_pretty(key(c))(fn)
                 m.reg[c] = dict(tag=tag, byname=True, state=PENDING)
